@@ -208,10 +208,10 @@ type event struct {
 // snap is what the uncrashed run looked like after a number of applied batches (one per block commit,
 // one per effective rollback)
 type snap struct {
-	version int
-	chain   []int // chain[i-1] = index (into evs) of the block event that is height i in this snapshot
-	line    string // the model's op line of the event that produced this snapshot
-	lineRes string
+	version    int
+	chain      []int  // chain[i-1] = index (into evs) of the block event that is height i in this snapshot
+	line       string // the model's op line of the event that produced this snapshot
+	lineRes    string
 	isRollback bool
 }
 
@@ -590,12 +590,10 @@ func checkClone(o *drv.Out, name string, c clone, rec *record, cfg lib.Config) {
 	o.Count(fmt.Sprintf("reopen:batches=acknowledged%+d", p-c.done))
 	o.Count("crash-before:" + c.op)
 	o.Count(fmt.Sprintf("unsynced-survives:%d%%", c.pct))
-	if rb, _ := rec.staleAfterRollback(-1, 0); !rb {
-		for b := 1; b < p; b++ {
-			if rec.snaps[b].isRollback {
-				o.Count("reopen:after-rollback-and-further-commits")
-				break
-			}
+	for b := 1; b < p; b++ {
+		if rec.snaps[b].isRollback {
+			o.Count("reopen:after-rollback-and-further-commits")
+			break
 		}
 	}
 	o.Nontrivial(fmt.Sprintf("%s pct=%d lag=%d h=%d rb=%v", c.op, c.pct, c.started-p, h, rec.snaps[p].isRollback))
